@@ -97,10 +97,11 @@ func (l layout) hist() []hx.Op {
 }
 
 func (l layout) cfg() hx.Config {
+	// no WAL and a small memtable: neither matters for masking, both dominate the cost of a case
 	if l.bs1 {
-		return hx.Config{Name: "blocksize1", BlockSize: 1}
+		return hx.Config{Name: "blocksize1", BlockSize: 1, DisableWAL: true, MemTableSize: 32 << 10}
 	}
-	return hx.Config{Name: "base"}
+	return hx.Config{Name: "blocksize-default", DisableWAL: true, MemTableSize: 32 << 10}
 }
 
 // c09Layouts enumerates the layout space, fewest points first. perPoint=false restricts the point
